@@ -9,7 +9,7 @@ import traceback
 from .srcmodel import AnalysisError, Repo
 from .report import Ctx, finish, write_evidence, VERIF_ROOT
 
-CLAIMED = ['C01', 'C02', 'C04', 'C05', 'C06', 'C07', 'C08', 'C09', 'C10', 'C12', 'C13',
+CLAIMED = ['C11', 'C01', 'C02', 'C04', 'C05', 'C06', 'C07', 'C08', 'C09', 'C10', 'C12', 'C13',
            'C14', 'C15', 'C16', 'C18', 'C19', 'C20']
 
 
